@@ -12,6 +12,10 @@ pub trait Service<Req> {
     fn poll(&self, _cx: &mut Context<'_>) -> Result<(), Self::Error> {
         Ok(())
     }
+    /// MODEL ONLY (see PipelineCall): the state of the call for `req`
+    fn model_poll(&self, _req: &Req) -> std::task::Poll<Result<Self::Response, Self::Error>> {
+        panic!("model_poll not provided by this service")
+    }
 }
 pub struct ServiceCtx<'a, S: ?Sized>(PhantomData<&'a S>);
 impl<'a, S: ?Sized> ServiceCtx<'a, S> {
@@ -82,6 +86,49 @@ macro_rules! forward_shutdown {
     };
 }
 
-/// `ntex_service::PipelineCall`: only stored (as `Option<..>` in a `Cell`) by the extracted io.rs
-/// state; never polled by a harness
-pub struct PipelineCall<S, R>(PhantomData<(S, R)>);
+/// `ntex_service::PipelineBinding` / `PipelineCall` as far as io.rs uses them: `call_nowait` starts the
+/// service call without a readiness check (io.rs polls readiness itself). The model does not run the
+/// service's `async fn call` (an unnameable future type would have to be boxed as `dyn Future`, whose
+/// drop glue and vtable calls CBMC resolves to every future type in the program): the pending call
+/// is the pair (service, request) and polling it asks the service's `model_poll` - a method that
+/// exists only in this model of the trait and that harness services implement next to `call`.
+pub struct PipelineBinding<S, R>
+where
+    S: Service<R>,
+{
+    svc: std::rc::Rc<S>,
+    _r: PhantomData<R>,
+}
+impl<S, R> PipelineBinding<S, R>
+where
+    S: Service<R> + 'static,
+    R: 'static,
+{
+    pub fn model_new(svc: S) -> Self {
+        PipelineBinding { svc: std::rc::Rc::new(svc), _r: PhantomData }
+    }
+    pub fn get_ref(&self) -> &S {
+        &self.svc
+    }
+    pub fn call_nowait(&self, req: R) -> PipelineCall<S, R> {
+        PipelineCall { svc: self.svc.clone(), req }
+    }
+}
+pub struct PipelineCall<S, R>
+where
+    S: Service<R>,
+    R: 'static,
+{
+    svc: std::rc::Rc<S>,
+    req: R,
+}
+impl<S, R> Unpin for PipelineCall<S, R> where S: Service<R> {}
+impl<S, R> std::future::Future for PipelineCall<S, R>
+where
+    S: Service<R>,
+{
+    type Output = Result<S::Response, S::Error>;
+    fn poll(self: std::pin::Pin<&mut Self>, _cx: &mut Context<'_>) -> std::task::Poll<Self::Output> {
+        self.svc.model_poll(&self.req)
+    }
+}
